@@ -9,6 +9,7 @@ GROUP = {
         ("text", "rust_decimal.rs"),
         ("text", "handles.rs"),
         ("text", "std_gaps.rs"),
+        ("text", "hashmap_iter_models.rs"),
         ("text", "ctx_stub.rs"),
         *TYPES,
         ("text", "amount_spec.rs"),
